@@ -62,6 +62,7 @@ func rulesC10(r *Run) {
 		r.Check("R3", "entered-block-runs-deferred", posOfState(m, "BlockPreChecks"), !reach["BlockEnd"] && !reach["End"] && !reach["ExecuteBlock"], "a resumed block that passed its bypass gate must pass BlockDeferredChecks")
 	}
 	ruleContJoin(r, "R3", m)
+	ruleContChannelsMade(r, "R3")
 	ruleJoinJ1(r, "R3", smKey("fixBlock"))
 	ruleFixAction(r, "R3")
 	for _, k := range []string{pkgSM + ".fixAction", pkgSM + ".fixChecks", pkgSM + ".fixSeq", smKey("fixBlock"), smKey("fixPlan")} {
@@ -437,7 +438,8 @@ func rulesC11(r *Run) {
 
 	r.Kind("R3", "K2+K6")
 	ruleAgedOut(r, "R3")
-	r.Expect("R3", 3)
+	ruleAgedOutWritesChildrenFirst(r, "R3")
+	r.Expect("R3", 4)
 
 	r.Kind("R4", "K2")
 	ruleNewRecovers(r, "R4", false)
@@ -936,7 +938,8 @@ func rulesC12(r *Run) {
 	r.Kind("R1", "K3")
 	ruleStartExclusion(r, "R1")
 	ruleWaiterRelease(r, "R1")
-	r.Expect("R1", 2)
+	ruleJobSubmittedDetached(r, "R1")
+	r.Expect("R1", 3)
 
 	r.Kind("R2", "K5+K2")
 	ruleValidateStartState(r, "R2")
@@ -950,7 +953,8 @@ func rulesC12(r *Run) {
 
 	r.Kind("R4", "K10")
 	ruleNilParams(r, "R4")
-	r.Expect("R4", 1)
+	ruleWalkSkipsNilChildren(r, "R4")
+	r.Expect("R4", 4)
 
 	r.Kind("R5", "K5")
 	rulePositiveArgs(r, "R5")
@@ -965,6 +969,7 @@ func rulesC12(r *Run) {
 	// R7: the contradiction rule over everything the five API calls can reach
 	r.Kind("R7", "K10")
 	ruleNilContradiction(r, "R7", "", "internal/execute", "internal/execute/sm", "internal/execute/sm/actions", "workflow", "workflow/utils/walk", "workflow/storage/sqlite", "plugins/registry", "plugins", "workflow/context")
+	ruleIndexPastEnd(r, "R7", "", "internal/execute", "internal/execute/sm", "internal/execute/sm/actions", "workflow", "workflow/utils/walk", "workflow/storage/sqlite", "plugins/registry", "plugins", "workflow/context")
 	r.Expect("R7", 10)
 }
 
@@ -1794,13 +1799,48 @@ func updatesReachedFrom(r *Run, key string) map[string]bool {
 	g := r.P.CallGraph()
 	out := map[string]bool{}
 	for k := range g.Reach([]string{key}, func(e CallEdge) bool {
-		return strings.HasPrefix(e.Callee, pkgSM+".") || strings.HasPrefix(e.Callee, "workflow/storage.")
+		return strings.HasPrefix(e.Callee, pkgSM+".") || strings.HasPrefix(e.Callee, pkgExec+".") || strings.HasPrefix(e.Callee, "workflow/storage.")
 	}) {
 		if strings.HasPrefix(k, "workflow/storage.") {
 			out[k[strings.LastIndex(k, ".")+1:]] = true
 		}
 	}
 	return out
+}
+
+// ruleAgedOutWritesChildrenFirst (D39): closing a stale plan at start-up stores the plan after everything it contains,
+// for the same reason End does (D33): a plan stored as Failed is never looked at again.
+func ruleAgedOutWritesChildrenFirst(r *Run, rule string) {
+	fn := r.fnByKey(rule, pkgExec+".recover.agedOut")
+	if fn == nil {
+		return
+	}
+	info := fn.Pkg.TypesInfo
+	writer := ""
+	ast.Inspect(fn.Decl.Body, func(x ast.Node) bool {
+		if c, ok := x.(*ast.CallExpr); ok && writer == "" {
+			if f, ok := calleeFunc(info, c); ok {
+				if k := FuncKey(f); r.P.Funcs[k] != nil && len(updatesReachedFrom(r, k)) == len(allUpdaters) {
+					writer = k
+				}
+			}
+		}
+		return writer == ""
+	})
+	if writer == "" {
+		// the writes may be written in agedOut itself
+		if len(updatesReachedFrom(r, fn.Key)) == len(allUpdaters) {
+			writer = fn.Key
+		} else {
+			r.Unresolved(rule, "agedOut calls a function that writes every kind of object")
+			return
+		}
+	}
+	msg, pos := writerOrderProblem(r, writer)
+	if !pos.IsValid() {
+		pos = fn.Decl.Pos()
+	}
+	r.Check(rule, "agedOut:closed-plan-written-children-first", pos, msg == "", "%s", orOK(msg, "the plan is written after everything it contains"))
 }
 
 // writerOrderProblem: does the function that writes a whole plan write an object before what it contains?
@@ -1822,7 +1862,7 @@ func writerOrderProblem(r *Run, k string) (string, token.Pos) {
 					fk := FuncKey(f)
 					if strings.HasPrefix(fk, "workflow/storage.") && strings.Contains(fk, ".Update") {
 						found = true
-					} else if strings.HasPrefix(fk, pkgSM+".") && len(updatesReachedFrom(r, fk)) > 0 {
+					} else if (strings.HasPrefix(fk, pkgSM+".") || strings.HasPrefix(fk, pkgExec+".")) && len(updatesReachedFrom(r, fk)) > 0 {
 						found = true
 					}
 				}
@@ -2092,4 +2132,50 @@ func ruleRunContextDetached(r *Run, rule string) {
 	}
 	r.Check(rule, "runPlan:plan-context-detached-from-caller", ctxExpr.Pos(), detached,
 		"the plan executes under %s, which is not derived from context.WithoutCancel: when the caller of Start cancels its context (or it times out) the check groups launched with Group.Go(req.Ctx, …) silently do not run and count as passed, while the sequences still execute", ExprStr(def(ctxExpr)))
+}
+
+// ruleJobSubmittedDetached (D41): the job that runs the plan — and that alone releases the waiter registered just before —
+// is submitted to the pool under a context the caller of Start cannot cancel. Pool.Submit drops a job whose context is
+// already done: Start had returned nil, the plan never ran, Wait blocked for ever and every later Start was refused as
+// "already running".
+func ruleJobSubmittedDetached(r *Run, rule string) {
+	fn := r.fnByKey(rule, pkgExec+".Plans.runPlan")
+	if fn == nil {
+		return
+	}
+	info := fn.Pkg.TypesInfo
+	var ctxParam types.Object
+	if ps := fn.Decl.Type.Params.List; len(ps) > 0 && len(ps[0].Names) > 0 {
+		ctxParam = info.ObjectOf(ps[0].Names[0])
+	}
+	n := 0
+	bad := ""
+	var bpos token.Pos = fn.Decl.Pos()
+	ast.Inspect(fn.Decl.Body, func(x ast.Node) bool {
+		c, ok := x.(*ast.CallExpr)
+		if !ok || len(c.Args) < 2 {
+			return true
+		}
+		f, ok := calleeFunc(info, c)
+		if !ok {
+			return true
+		}
+		k := FuncKey(f)
+		if !strings.HasSuffix(k, "Pool.Submit") && k != keyGroupGo {
+			return true
+		}
+		if LitArg(c) == nil {
+			return true
+		}
+		n++
+		if ObjOf(info, c.Args[0]) == ctxParam && ctxParam != nil && bad == "" {
+			bad, bpos = "runPlan submits the job that runs the plan under its caller's context ("+ExprStr(c.Args[0])+"): a context that is done by then makes the pool drop the job, the waiter registered before is never released", c.Pos()
+		}
+		return true
+	})
+	if n == 0 {
+		r.Unresolved(rule, "runPlan submits a literal to the pool")
+		return
+	}
+	r.Check(rule, "runPlan:job-submitted-under-detached-context", bpos, bad == "", "%s", orOK(bad, "the job is submitted under a context derived in runPlan"))
 }
